@@ -316,6 +316,15 @@ extern iface.LegacyAggregatorFunction.Add
   props C17
   modifies pkgheaps(functions)
 
+// analytic state machines reached through their interfaces write their own fields (and maps/slices they allocate) only
+extern iface.AnalyticState.Apply
+  props C14
+  modifies pkgheaps(functions)
+
+extern iface.NamedRowState.ApplyNamed
+  props C14
+  modifies pkgheaps(functions)
+
 extern iface.LegacyAggregatorFunction.Result
   props C17
 
@@ -390,6 +399,22 @@ func (*latestState).Reset
   props C14
   modifies s.latest, s.hasVal
   ensures !s.hasVal && s.latest == nil
+
+// had_changed: values are args[1:], args[0] is ignoreNull. hcKeeps(args, j): column j is an ignored NULL on this row.
+pred hcIgnore(args) := len(args) > 0 && AnalyticToBool(args[0])
+pred hcKeeps(args, j) := hcIgnore(args) && args[j + 1] == nil
+
+func (*hadChangedState).Apply
+  props C14
+  modifies s.first, s.prev
+  ensures first-row-is-reported-and-becomes-the-baseline: !old(s.first) ==> isBool(result) && boolval(result) && s.first && len(s.prev) == ite(len(args) > 0, len(args) - 1, 0) && forall(j, 0, len(s.prev), s.prev[j] == args[j + 1])
+  ensures every-column-gets-its-next-baseline: old(s.first) ==> s.first && len(s.prev) == ite(len(args) > 0, len(args) - 1, 0) && forall(j, 0, len(s.prev), s.prev[j] == ite(hcKeeps(args, j), ite(j < len(old(s.prev)), old(s.prev)[j], nil), args[j + 1]))
+  ensures changed-iff-some-compared-column-differs-from-its-baseline: old(s.first) ==> isBool(result) && (boolval(result) <==> exists(j, 0, ite(len(args) > 0, len(args) - 1, 0), !hcKeeps(args, j) && (j >= len(old(s.prev)) || !analyticEqual(old(s.prev)[j], args[j + 1]))))
+  loop 1 invariant len(newPrev) == len(values) && len(values) == ite(len(args) > 0, len(args) - 1, 0) && s.prev == old(s.prev) && s.first
+  loop 1 invariant forall(j, 0, len(values), values[j] == args[j + 1])
+  loop 1 invariant forall(j, 0, $i, newPrev[j] == ite(hcKeeps(args, j), ite(j < len(old(s.prev)), old(s.prev)[j], nil), args[j + 1]))
+  loop 1 invariant forall(j, $i, len(values), newPrev[j] == nil)
+  loop 1 invariant changed <==> exists(j, 0, $i, !hcKeeps(args, j) && (j >= len(old(s.prev)) || !analyticEqual(old(s.prev)[j], args[j + 1])))
 
 func (*changedColState).Apply
   props C14
